@@ -84,6 +84,9 @@ def emit(el, sp, plain, digit, rng, depth=0, root=True):
             return (" " + inner + "\n ") if mode != "interior" else inner
         return s
     kids = [k for k in el if isinstance(k.tag, str)]
+    if tag in mml.TOKEN_TAGS and not kids and not (el.text or "").strip():
+        out += {"bare": "", "space": " \n ", "ref": "&#x20;", "comment": "<!-- nothing -->", "pi": "<?verif nothing?>"}[sp.get("emptyTok", "bare")]
+        return out + f"</{pre}{tag}>"
     out += text(el.text or "", not kids)
     for i, k in enumerate(kids):
         if sp["comment"] and i == 0:
@@ -149,14 +152,21 @@ def run(tier):
              "<math><mi>x</mi><mo>&#x2208;</mo><mi>S</mi><mtext>such that it holds</mtext><mi>&#x3B1;</mi><mo>&#x2264;</mo><mn>&#xBD;</mn></math>"]
     for x in extra:
         docs.append((ET.fromstring(x), True, True))
+    # documents with token elements that have no text (scripts on nothing, a missing numerator, an empty operator)
+    with_empty = [(ET.fromstring(x), False, False) for x in (
+        "<math><msup><mi>x</mi><mi></mi></msup><mo>+</mo><mn>1</mn></math>", "<math><mi>a</mi><mi></mi><mo>=</mo><mfrac><mn></mn><mn>2</mn></mfrac></math>",
+        "<math><mrow><mo></mo><mi>z</mi></mrow><mo>-</mo><msub><mi>k</mi><mn></mn></msub></math>", "<math><mi>p</mi><mn></mn><mtext></mtext><mi>q</mi></math>",
+        "<math><munder><mo>&#x2211;</mo><mi></mi></munder><mi>t</mi></math>")]
     with_digit = [d for d in docs if d[2]]
     with_plain = [d for d in docs if d[1]]
-    base_sp = {"entity": "raw", "prefix": "none", "space": False, "comment": False, "pi": False, "quote": "single", "mjx": "none", "lookalike": "none", "defaultDecl": False, "otherNs": "none"}
+    base_sp = {"entity": "raw", "prefix": "none", "space": False, "comment": False, "pi": False, "quote": "single", "mjx": "none", "lookalike": "none", "defaultDecl": False, "otherNs": "none", "emptyTok": "bare"}
     pairs = []          # (spelling, base xml, variant xml)
     per = 3 if tier == "quick" else 25
     for si, sp in enumerate(spellings):
         r2 = random.Random(C.seed() * 13 + si)
         pool = with_digit if sp["entity"] == "named-with-digit" else with_plain if sp["entity"] in ("named", "dec", "hex", "unknown-name") else docs
+        if sp.get("emptyTok", "bare") != "bare" and sp["entity"] == "raw":
+            pool = with_empty
         for el, _, _ in r2.sample(pool, min(per, len(pool))):
             base = emit(el, base_sp, plain, digit, r2)
             var = emit(el, sp, plain, digit, r2)
@@ -251,7 +261,7 @@ def run(tier):
 
 def selftest(tier):
     wd = C.workdir("c17_self")
-    sp = {"entity": "named", "prefix": "m", "space": True, "comment": False, "pi": False, "quote": "single", "mjx": "none", "lookalike": "none", "defaultDecl": False, "otherNs": "none"}
+    sp = {"entity": "named", "prefix": "m", "space": True, "comment": False, "pi": False, "quote": "single", "mjx": "none", "lookalike": "none", "defaultDecl": False, "otherNs": "none", "emptyTok": "bare"}
     ev = [{"sp": sp, "res": "ok", "same": 1, "named": 0}, {"sp": sp, "res": "ok", "same": 0, "named": 0}, {"sp": dict(sp, entity="unknown-name"), "res": "ok", "same": 0, "named": 0},
           {"class": "with-digit", "res": "err", "same": 0, "named": 0}, {"class": "unknown", "res": "err", "same": 0, "named": 1}]
     rej, _, _ = C.validate_trace("Trace_Xml", "Trace_Xml.cfg", ev, wd)
